@@ -80,6 +80,16 @@ theorem C01_time_keys_witness :
     ∃ b, encode t v ⟨false, false⟩ = .ok b ∧ decode t b ⟨false, false⟩ = .err :=
   ⟨[2, 255, 255, 255, 255, 255, 255, 255, 127, 1, 255, 255, 255, 255, 255, 255, 255, 127, 2], by decide, by decide⟩
 
+/-- A map keyed by an array whose settings make the encoder sort the key's elements: two distinct
+keys `[0, 5]` and `[5, 0]` encode to the same key bytes, `Decode` reports a duplicate key (known
+finding; `Ty.isKey` excludes auto-sorted arrays, so the schema is not `wf`). -/
+theorem C01_autosort_array_keys_witness :
+    let t : Ty := .map .u8 {} (.array 2 .u8 { lex := true, autoSort := true } (.uint 1)) (.uint 1)
+    let v : Val := .l [.kv (.l [.n 0, .n 5]) (.n 1), .kv (.l [.n 5, .n 0]) (.n 2)]
+    t.wf = false ∧ encode t v ⟨false, false⟩ = .ok [2, 2, 0, 5, 1, 2, 0, 5, 2] ∧
+    decode t [2, 2, 0, 5, 1, 2, 0, 5, 2] ⟨false, false⟩ = .err := by
+  decide
+
 theorem C01_binary_statement_fails_witness : ¬ C01_binary_statement := by
   intro h
   have h1 := h (.struct none (.cons true (.ptr (.struct none .nil)) .nil)) (.l [.some (.l [])]) ⟨false, false⟩
